@@ -78,3 +78,25 @@ pub proof fn lemma_head_len(b: Seq<u8>)
     lemma_x_layout(b);
 }
 } // verus!
+verus! {
+/// C06, meaning of the unmerged branches (corollary of lemma_normalize_segs): when the reference has a scheme, an
+/// authority or an absolute path, the segments of the target path are the RFC 3986 5.2.4 / Errata 4547 normalized
+/// sequence of the reference's own path (norm_fold = remove_dot_segments on segments), preceded by a '.' shield
+/// only where the rendering needs one. NB the RFC text additionally ends in '/' when the reference's last segment is
+/// a dot segment; in-place normalisation does not write it (recorded finding).
+pub proof fn lemma_res_unmerged_rfc(r: Seq<u8>, b: Seq<u8>, n: Seq<u8>)
+    requires ref_shape(r), res_select(r, b, n),
+        x_has_sch(r) || x_has_auth(r) || (r_path(r).len() > 0 && r_path(r)[0] == 47),
+    ensures ({
+        let fa = if x_has_sch(r) { x_has_auth(r) } else if x_has_auth(r) { true } else { x_has_auth(b) };
+        !lone_empty_unshielded(r_path(r), fa, false) ==>
+            segs(r_path(n)) =~= shield_seq(r_path(r), fa, false) + norm_segs(r_path(r)) && p_is_abs(r_path(n)) == p_is_abs(r_path(r))
+    }),
+{
+    reveal(path_fits);
+    lemma_ref_pieces(r);
+    let fa = if x_has_sch(r) { x_has_auth(r) } else if x_has_auth(r) { true } else { x_has_auth(b) };
+    assert(path_shape(r_path(r)));
+    if !lone_empty_unshielded(r_path(r), fa, false) { lemma_normalize_segs(r_path(r), fa, false); }
+}
+} // verus!
